@@ -53,6 +53,15 @@ def rand_md(rng, kind, i):
         return {'taxonomy': ['k__%s' % rng.choice('AB'), 'p__%s' % rng.choice('CDE')][:rng.randint(1, 2)]}
     if kind == 'group':
         return {'g': rng.choice(['g1', 'g2', 'g3'])}
+    if kind == 'falsy':
+        # real metadata whose values are all falsy (a flag that is off, a zero, an empty text / list, None),
+        # now and then with a truthy one
+        d = {'b': False, 'z': rng.choice([0, 0.0]), 'e': '', 'l': [], 'n': None}
+        for k in rng.sample(sorted(d), rng.randint(0, 3)):
+            del d[k]
+        if rng.random() < 0.3:
+            d['g'] = rng.choice(['g1', 'g2'])
+        return d or {'b': False}
     raise ValueError(kind)
 
 
@@ -66,7 +75,7 @@ def rand_spec(rng, min_r=1, max_r=4, min_c=1, max_c=4, values=None, density=None
     mat = [[rand_value(rng, values) if rng.random() < density else 0.0 for _ in range(c)] for _ in range(r)]
     mdk = md if md is not None else rng.choice(['none', 'none', 'text', 'num', 'tax', 'group', 'obs', 'samp'])
     omd = smd = None
-    if mdk in ('text', 'num', 'tax', 'group'):
+    if mdk in ('text', 'num', 'tax', 'group', 'falsy'):
         omd = [rand_md(rng, mdk, i) for i in range(r)]
         smd = [rand_md(rng, mdk if mdk != 'tax' else 'text', i) for i in range(c)]
     elif mdk == 'partial':
